@@ -59,7 +59,32 @@ def ks_trace(scn, rec):
         same = 1 if a == b else 0
     except Exception:
         same = 2
+    # "the lowest normalised cut": the value a candidate is judged by is the normalised cut of ITS graph over the samples' distances -
+    # sum over clusters of external / (internal + external), arcs weighted 1 / d(s, t), zero-distance arcs ignored - with the distances
+    # of the samples the arcs join (the harness's own: the named metric on the caller's rows, or the matrix at the samples' identifiers)
+    cut_ok = 2
+    if scn["kind"] == "unsup":
+        try:
+            df = K.dist_fn(scn, rec.get("model"))
+            rows = list(scn["I_train"])
+            cut_ok = 1
+            for nm, p in log:
+                if nm != "cut" or "adj" not in p:
+                    continue
+                inte, exte = [0.0] * p["nc"], [0.0] * p["nc"]
+                for i, lst in enumerate(p["adj"]):
+                    for j in lst:
+                        dd = df(rows[i], rows[j])
+                        if dd > 0.0:
+                            (inte if p["cl"][i] == p["cl"][j] else exte)[p["cl"][i]] += 1.0 / dd
+                ref = sum(exte[l] / (inte[l] + exte[l]) for l in range(p["nc"]) if inte[l] + exte[l] > 0.0)
+                # (1e-6: a single-precision matrix makes 1 / d a single-precision quotient inside the library)
+                if not (abs(ref - p["value"]) <= 1e-6 * max(1.0, abs(ref))):
+                    cut_ok = 0
+        except Exception:
+            cut_ok = 2
     return {
+        "criterion_is_the_cut": cut_ok,
         "final_pdf_same": same,
         "criterion_on_validation_labels": crit,
         "mode": scn["kind"],
